@@ -21,6 +21,7 @@ RULE = (
     "a vector potential of the wrong shape, invalid polygons and device definitions; with/without explicit output path, empty/populated "
     "directory, scheduled validator RNG seed. Non-trivial = the defect was applied and the run reached a verdict; distinct = scenario digests"
 )
+LIFECYCLES = {}  # shared object life cycles (scen.add_lifecycles) with their default rates
 BUDGET = {"quick": {"runs": 1500, "chunk": 25}, "thorough": {"runs": 200000, "chunk": 50}}
 COMPONENTS = {"real": ["SolverOptions.validate", "TDGLSolver.__init__ validation + validate_terminal_currents", "Device/Polygon constructors", "TDGLSolver.solve seed check", "DataHandler (its file events are what must NOT happen)"], "stub": ["validator RNG (seed is a scheduled input)", "wall clock"]}
 
